@@ -231,4 +231,43 @@ Proof.
   intros n ty cv av H. inversion H; subst; eauto.
   apply cloR_kind in H0. destruct ty; (destruct cv; [contradiction | eauto]).
 Qed.
+Lemma vrel_clo_inv : forall n c ty cv av, vrel n c ty cv av ->
+  match c, ty with
+  | CCns, CI64 => True
+  | CCns, CDecl _ => is_codata codata ty = false
+  | CPrd, CDecl _ => is_codata codata ty = true
+  | CPrd, CI64 => False
+  end ->
+  exists tn cls ce, av = VClo tn cls ce /\ cloR n c ty cv av.
+Proof.
+  intros n c ty cv av H Hk. inversion H; subst; try contradiction; try congruence; eauto.
+Qed.
+Lemma vrel_prd_data_inv : forall n T cv av, vrel n CPrd (CDecl T) cv av -> is_codata codata (CDecl T) = false ->
+  exists d K sg args fs tn, cv = BP (PCtor K args) /\ av = VObj tn K fs /\
+    find_decl data T = Some d /\ find_cxtor d K = Some sg /\ vrels n (cxargs sg) args fs.
+Proof.
+  intros n T cv av H Hk. inversion H; subst.
+  - do 6 eexists. repeat split; eauto.
+  - apply cloR_kind in H0. unfold is_kind in H0. destruct cv; [congruence | contradiction].
+Qed.
+Lemma vrel_cns_codata_inv : forall n T cv av, vrel n CCns (CDecl T) cv av -> is_codata codata (CDecl T) = true ->
+  exists d K sg args fs tn, cv = BK (KDtor K args) /\ av = VObj tn K fs /\
+    find_decl codata T = Some d /\ find_cxtor d K = Some sg /\ vrels n (cxargs sg) args fs.
+Proof.
+  intros n T cv av H Hk. inversion H; subst.
+  - do 6 eexists. repeat split; eauto.
+  - apply cloR_kind in H0. unfold is_kind in H0. destruct cv; [contradiction | congruence].
+Qed.
+
+(* sending a message to a related closure *)
+Lemma invoke_clo : forall k c ty cv tn cls ce tag fs sr out r,
+  cloR (S k) c ty cv (VClo tn cls ce) -> msg (vrel k) c ty cv tag fs sr ->
+  cont k sr out = r -> good r ->
+  exists cl e1 m, find_clause cls tag = Some cl /\ bind (vars (cl_ctx cl)) fs = Some e1 /\
+                  exec_named m q (e1 ++ ce) (cl_body cl) out = r.
+Proof.
+  intros k c ty cv tn cls ce tag fs sr out r Hc Hm Hr Hg.
+  destruct (cloR_use _ k _ _ _ _ _ _ Hc (Nat.lt_succ_diag_r k) _ _ _ Hm) as (cl & e1 & Hf & Hb & Hbeh).
+  destruct (Hbeh out r Hr Hg) as [m Hm']. eauto 8.
+Qed.
 End Rel.
